@@ -59,7 +59,7 @@ CHECKS = {
    text="A real shutterservice.Keyper runs processNewBlock over histories of blocks (increasing/equal/decreasing timestamps) with three keyper sets in generated DKG/membership/activation states, identities with release times at T-1/T/T+1, event-trigger rows fired/not fired/decrypted, decrypted flags set through the real queries and restarts; every trigger is judged identity by identity (strictly later timestamp, activation reached, fired no later than expiry, member, newest eon succeeded, not decrypted, sorted and distinct, one set per trigger), and every shares message sent must repeat an observed trigger. Key generations restart, fail and complete between blocks of a history, and a third of the triggers reach the real KeyShareHandler only after the next state change (asynchronous trigger channel): shares may only be contributed, with the right share values, for a set whose latest key generation has succeeded at that moment.",
    note="Go toolchain; pgmem; ethfake; gossipnet Service node; shutterservice verif hooks (VerifNewKeyper, VerifProcessNewBlock)", ref="§3 C02"),
  "C03": dict(cat="exploration", tech="virtual gossip network with a schedule enumerator/sampler over real nodes (real validators, handlers, middleware, key share handler on pgmem); oracle at quiescence and at every delivery",
-   text="n real nodes of one flavour (core, Gnosis, Shutter-service) exchange the bytes their code produces; for n=3,t=2 every triggered subset and every causally feasible per-node order of {own trigger, arrival of each shares message (kept or lost, <= n-t lost)} x keys-message placement is executed, plus sampled schedules for n<=5 with duplicates and two identities: every honest message must be accepted by honest peers (and Gnosis keys messages by the access node), every stored key must be the correct one, and whenever a keyper derived the key every node must store it at quiescence. Two liveness gaps under message loss are recorded as known findings.",
+   text="n real nodes of one flavour (core, Gnosis, Shutter-service) exchange the bytes their code produces; for n=3,t=2 every triggered subset and every causally feasible per-node order of {own trigger, arrival of each shares message (kept or lost, <= n-t lost)} x keys-message placement is executed, plus sampled schedules for n<=5 with duplicates and two identities: every honest message must be accepted by honest peers (and Gnosis keys messages by the access node), every stored key must be the correct one, and whenever a keyper derived the key every node must store it at quiescence. Two liveness gaps under message loss are recorded as known findings. For Gnosis, where a received keys message moves the transaction pointer and therefore changes what a later trigger asks for, two-identity runs additionally enumerate every node priority order (global interleaving) with keys delivered at once to all or only to not-yet-triggered nodes.",
    note="Go toolchain; pgmem (Snapshot/Restore per schedule); gossipnet (libp2p replaced by direct delivery); fixtures.EonKeys; verif hooks", ref="§3 C03"),
  "C08": dict(cat="fault_enumeration", tech="enumeration of process crashes at every database round trip (before the request / after the commit) of a complete real DKG run; OnCommit sync-position monitor; chain-side transaction log checks; twin comparison with the crash-free run",
    text="Three keypers made of repository code only (SyncAppWithDB, handleOnChainChanges, SendShutterMessages with the real RPCMessageSender) run a complete DKG over the real shuttermint app; for each keyper a crash is injected before each of its ~410 database round trips and after each of its ~30 committing ones, followed by a restart on the same database (thorough: pairs of crashes). Three block schedules: one block per round of steps; every transaction alone in its block (blocks whose only DKG event is one evaluation, accusation ...; quick: one keyper); one block per round with a harness-played third keyper that deals a wrong evaluation, accuses falsely and never apologises, so that the swept run contains accusations and an apology. Checked: sync position advances by exactly one block per commit, never two different commitments per eon, every poly eval on chain verifies against the published commitment, outbox drained, same DKG outcome, all keypers hold the same eon key, same final database state and same order of accepted messages as the crash-free twin (block-per-transaction schedule: same DKG messages in order and same message set, because heights there depend on timing).",
